@@ -169,11 +169,17 @@ func (e *e2eEnv) oneCPU(sub []string) bool {
 	return e.turn[k]%2 == 0
 }
 
+var manyPortsCalls int
+
 func (e *e2eEnv) randPorts(many bool) string {
 	rng := e.r.Rng
 	k := 1 + rng.Intn(3)
 	if many {
 		k = 601 + rng.Intn(3) // four engine runs
+		manyPortsCalls++
+		if manyPortsCalls%2 == 1 {
+			k = 1801 + rng.Intn(3) // ten engine runs: nine moments at which one run's goroutines meet the next run's
+		}
 	}
 	var ps []string
 	for i := 0; i < k; i++ {
